@@ -34,15 +34,19 @@ LICENSE file or <http://www.boost.org/LICENSE_1_0.txt>
 #define DEBUG_HERE ((void)0)
 #define DEBUG_PRINT(...) ((void)0)
 #else
-#define DEBUG_HERE                                                         \
-    do {                                                                   \
-        fprintf(error_logger, "%s:%d:%s\n", __FILE__, __LINE__, __func__); \
-        fflush(error_logger);                                              \
+#define DEBUG_HERE                                                             \
+    do {                                                                       \
+        if (error_logger) {                                                    \
+            fprintf(error_logger, "%s:%d:%s\n", __FILE__, __LINE__, __func__); \
+            fflush(error_logger);                                              \
+        }                                                                      \
     } while (false)
-#define DEBUG_PRINT(...)                    \
-    do {                                    \
-        fprintf(error_logger, __VA_ARGS__); \
-        fflush(error_logger);               \
+#define DEBUG_PRINT(...)                        \
+    do {                                        \
+        if (error_logger) {                     \
+            fprintf(error_logger, __VA_ARGS__); \
+            fflush(error_logger);               \
+        }                                       \
     } while (false)
 #endif
 
